@@ -1,5 +1,5 @@
 CONSTANTS Budget = 7 MaxItems = 3 Sim = TRUE Headers = "all"
-  Masked = {"clause_guard", "none_pas_var"}
+  Masked = {"none_pas_var"}
 SPECIFICATION Spec
 INVARIANTS PendingInvisible TargetsAreBinders Balanced ScopeDeclarative
 CHECK_DEADLOCK FALSE
